@@ -63,6 +63,16 @@ Theorem c19_rec_insert_order_free : forall fuel m acc out1 out2,
 Proof. exact rec_insert_order_free. Qed.
 Print Assumptions c19_rec_insert_order_free.
 
+(** the HTML index end to end: transitiveIncludesRec under ANY iteration orders, then `range
+    moduleMap` in ANY order, then sort.Sort(Modules): one module list *)
+Theorem c19_html_index_order_free : forall fuel m out1 out2 iter1 iter2,
+  file_functional fuel m ->
+  trec_any fuel m [] out1 -> trec_any fuel m [] out2 ->
+  Permutation (dedup_keys out1) iter1 -> Permutation (dedup_keys out2) iter2 ->
+  transitive_includes_from iter1 = transitive_includes_from iter2.
+Proof. exact html_index_order_free. Qed.
+Print Assumptions c19_html_index_order_free.
+
 (** set-like stores commute *)
 Theorem c19_set_insert_order_free : forall (V W : Type) keep kf (vf : str * V -> W) iter iter' t0,
   Permutation iter iter' -> consistent keep kf vf iter ->
